@@ -493,11 +493,11 @@ func runC16(res *lib.Result, tier string, seed int64, args []string) error {
 // e2e: a malformed annotation line yields only a warning on that line and disturbs nothing else
 
 type c16Block struct {
-	lines    []string // source lines of the block
-	annot    []int    // indices (within lines) of annotation lines that nothing else depends on
-	use      string   // identifier to hover
-	keep     map[int][]string // per corruptible line: texts that must remain in the hover of `use`
-	must     []string         // texts the hover of `use` must contain in the clean file
+	lines []string         // source lines of the block
+	annot []int            // indices (within lines) of annotation lines that nothing else depends on
+	use   string           // identifier to hover
+	keep  map[int][]string // per corruptible line: texts that must remain in the hover of `use`
+	must  []string         // texts the hover of `use` must contain in the clean file
 }
 
 func c16E2E(res *lib.Result, tier string, root *lib.Rng) error {
@@ -525,11 +525,13 @@ func c16E2E(res *lib.Result, tier string, root *lib.Rng) error {
 				fn := fmt.Sprintf("g%d", b)
 				gt, gk := fmt.Sprintf("GT%d", b), fmt.Sprintf("GK%d", b)
 				bl := c16Block{use: fn, keep: map[int][]string{}}
-				bl.lines = append(bl.lines, "---@generic "+gt+" : string, "+gk, "---@param aa "+gt, "---@param bb "+gk+"[]", "---@return table<string, "+gt+">",
+				// (a tag the parser does not know stands between the lines: it is no statement, the lines after it keep their places)
+				bl.lines = append(bl.lines, "---@generic "+gt+" : string, "+gk, "---@see other", "---@param aa "+gt, "---@param bb "+gk+"[]", "---@return table<string, "+gt+">",
 					"local function "+fn+"(aa, bb) return aa end")
-				bl.annot = []int{1, 2}
-				bl.keep[1] = []string{"bb: " + gk + "[]"}
-				bl.keep[2] = []string{"aa: " + gt}
+				bl.annot = []int{2, 3}
+				bl.keep[2] = []string{"bb: " + gk + "[]"}
+				bl.keep[3] = []string{"aa: " + gt}
+				bl.must = []string{"aa: " + gt, "bb: " + gk + "[]", "->1. table<string, " + gt + ">"}
 				blocks = append(blocks, bl)
 			case 0:
 				cls := fmt.Sprintf("Cls%d", b)
@@ -605,9 +607,10 @@ func c16E2E(res *lib.Result, tier string, root *lib.Rng) error {
 			return strings.Join(out, "\n") + "\n", corrLine, useCols
 		}
 		type snap struct {
-			d18   map[string]bool
-			other []string
-			hov   []string
+			genericDef []string
+			d18        map[string]bool
+			other      []string
+			hov        []string
 		}
 		take := func(src string, useCols []int) (snap, error) {
 			var sn snap
@@ -641,6 +644,27 @@ func c16E2E(res *lib.Result, tier string, root *lib.Rng) error {
 				}
 				sn.hov = append(sn.hov, h)
 			}
+			// go-to-definition on a generic name used in the LAST annotation line of its block (---@return table<string, GTn>)
+			// leads to the ---@generic line that introduces it
+			ls := strings.Split(src, "\n")
+			for ln, l := range ls {
+				k := strings.Index(l, "---@return table<string, GT")
+				if k < 0 {
+					continue
+				}
+				col := k + len("---@return table<string, ")
+				locs, err := sess.Definition("main.lua", ln, col+1)
+				if err != nil {
+					return sn, err
+				}
+				got := "-"
+				if len(locs) > 0 && locs[0].Range.Start.Line < len(ls) {
+					got = ls[locs[0].Range.Start.Line]
+				}
+				if !strings.HasPrefix(got, "---@generic ") {
+					sn.genericDef = append(sn.genericDef, fmt.Sprintf("line %d: definition of the generic name in %q leads to %q", ln, l, got))
+				}
+			}
 			return sn, nil
 		}
 		cleanSrc, _, useCols := render(-1, -1, "")
@@ -659,6 +683,9 @@ func c16E2E(res *lib.Result, tier string, root *lib.Rng) error {
 					res.AddViolation("impl-vs-spec", fmt.Sprintf("the hover of %s does not show %q (every documented line of its block is to be understood): %s", bl.use, m, lib.Trunc(base.hov[bi], 300)), cleanSrc, false)
 				}
 			}
+		}
+		for _, g := range base.genericDef {
+			res.AddViolation("impl-vs-spec", g, cleanSrc, false)
 		}
 		for k := range base.d18 {
 			if strings.Contains(k, "syntax error") || strings.Contains(k, ": GT") || strings.Contains(k, ": GK") || strings.Contains(k, ": ZqAl") || strings.Contains(k, ": ZqCls") {
